@@ -340,9 +340,27 @@ def run(ck):
     zero = [e for e in en.events("call") if e.get("op") == "<<" and any(a.get("const") == "s:0" for a in e.get("args", []))]
     crlfs = [e for e in en.events("call") if e.get("op") == "<<" and any((a.get("t") or "").endswith("crlf") for a in e.get("args", []))]
     fl = [e for e in en.calls(lambda e: (e.get("callee") or "") == RS + "flush")]
-    tst = [b for b in en.blocks.values() if b.term and b.term.get("k") == "if" and b.term.get("neg") and (b.term.get("core") or {}).get("v") in {d_["var"] for d_ in en.events("decl") if "ostream" in (d_.get("type") or "")}]
+    osv = {d_["var"] for d_ in en.events("decl") if "ostream" in (d_.get("type") or "")}
+    # the stream-state test: `if (!os)`, or a bool local that records the state (`const bool fits = static_cast<bool>(os); if (!fits)`);
+    # good_edges = the edges on which the stream is known to be good
+    good_edges = []
+    for b in en.blocks.values():
+        t_ = b.term
+        if not t_ or t_.get("k") != "if" or t_.get("cmp") or len(b.succs) != 2:
+            continue
+        cv_ = (t_.get("core") or {}).get("v")
+        if cv_ in osv:
+            good_edges.append((b.id, 1 if t_.get("neg") else 0))
+            continue
+        dl = [x for x in en.events("decl") if x.get("var") == cv_ and "bool" in (x.get("ctype") or x.get("type") or "")]
+        it_ = re.sub(r"\s+", "", (dl[0].get("init") or {}).get("t") or "") if dl else ""
+        if dl and any(re.search(r"\b%s\b" % re.escape(v_), it_) for v_ in osv):
+            means_failed = it_.startswith("!") or ".fail()" in it_ or ".bad()" in it_
+            truth_edge = 1 if t_.get("neg") else 0         # edge on which the local is true
+            good_edges.append((b.id, (1 - truth_edge) if means_failed else truth_edge))
+    tst = good_edges
     ok = len(zero) == 1 and len(crlfs) == 2 and len(fl) == 1 and len(tst) == 1 and cfg.ev_dominates(d, zero[0], crlfs[0]) and \
-        all(cfg.ev_dominates(d, c, fl[0]) for c in crlfs) and cfg.edge_dominates(en, tst[0].id, 1, fl[0])
+        all(cfg.ev_dominates(d, c, fl[0]) for c in crlfs) and cfg.edge_dominates(en, tst[0][0], tst[0][1], fl[0])
     ck.ob("C05-R3", "ResponseStream::ends/terminator", ok, en.loc, en, "\"0\" CRLF CRLF, `if (!os) throw`, then flush()")
     ctor = [f2 for f2 in prog.funcs.values() if f2.base == RS + "ResponseStream" and len(f2.params) >= 5]
     ck.require(ctor, "ResponseStream constructor not found")
